@@ -83,6 +83,7 @@ def _ctor_tasks(tier):
     out = [task(A, "ob_if", f"bool.If[bv]/meaning@w{w}", ["C01"], sort="bv", w=w, tier=tier) for w in ([1, 8] if tier == "quick" else [1, 2, 8, 32])]
     out.append(task(A, "ob_if", "bool.If[bool]/meaning", ["C01"], sort="bool", tier=tier))
     out.append(task(A, "ob_op_wrapper", "annos.op._op/meaning+clauses", ["C07", "C01"], tier=tier))
+    out += [task(A, "ob_op_wrapper", f"annos.op._op[{n}]/meaning+clauses", ["C07", "C01"], tier=tier, arity=k) for n, k in (("unary", 1), ("variadic", 0))]
     return out
 
 
